@@ -175,6 +175,22 @@ for i in range(nbase):
                         compare("C04:vector-vs-scalar", "entry %d of %s vs the flat vector call" % (j_w, t8), [f[j_w] for f in f6],
                                 [float(o[j_w]) for o in outs], scales_for(seq, rho, ws[j_w]), tol=1e-13)
 
+# ---------------------------------------------------------------- energy= through the package-level functions
+import periodictable as _ptpkg
+stats["package_level_energy"] = 0
+for _ in range(8 if tier == "quick" else 80):
+    seq_ = pool.nested(rng.randint(0, 2), must=[rng.choice(pool.tab)] if rng.random() < 0.5 else [])
+    w_ = pool.wavelength(flat_atoms(seq_))
+    e_ = EF_DOC / w_ ** 2
+    stats["package_level_energy"] += 1
+    a_ = attempt(_ptpkg.neutron_scattering, seq_, density=3.0, energy=e_)
+    b_ = attempt(nsf.neutron_scattering, seq_, density=3.0, wavelength=float(nsf.neutron_wavelength(e_)))
+    fa_, fb_ = (flatten_result(r, False, 1) if isinstance(r, tuple) else None for r in (a_, b_))
+    t_ = "periodictable.neutron_scattering(%r, density=3.0, energy=%r)" % (seq_, e_)
+    if fa_ is None or fb_ is None or any(abs(x[0] - y[0]) > 1e-9 * max(abs(x[0]), abs(y[0]), 1e-300) + (1e-7 if j == 2 else 0)
+                                         for j, (x, y) in enumerate(zip(fa_, fb_))):
+        fail("C04:energy-vs-wavelength", "%s = %r; with the equivalent wavelength= nsf.neutron_scattering gives %r" % (t_, a_, b_), call=t_)
+
 # ---------------------------------------------------------------- one-species cells at the clipping boundary
 # nuclides whose tabulated total cross section does not exceed 4 pi b_c^2/100 have an incoherent part of exactly zero:
 # it stays zero (and nothing turns negative or NaN) when the cell holds 3, 5 or 7 of them
